@@ -457,6 +457,28 @@ func c07RPC(r *core.Run) {
 						r.Check(core.IsPkgFunc(def, pTM, "InitSeataContext"), "C07.rpc", core.ShortKey(f.Obj)+" : callee context is fresh", w.Pos(x.Pos()), "tm.InitSeataContext(...) result: role is not Launcher",
 							"the xid is installed into a context whose value at this point comes from "+core.ShortKey(def)+" rather than a fresh tm.InitSeataContext(...): the callee could inherit the Launcher role")
 					}
+					// any other call that takes an xid key constant together with the xid: which semantics?
+					if callee != nil && !isMetaWrite(callee) && !core.IsPkgFunc(callee, pTM, "SetXID") && len(x.Args) >= 2 {
+						var kc *types.Const
+						hasXid := false
+						for _, a := range x.Args {
+							if c := keyConst(info, a); c != nil && xidKeyConsts[c.Name()] {
+								kc = c
+							} else if strings.Contains(origin(f, a, 4), "pkg/tm.GetXID(") {
+								hasXid = true
+							}
+						}
+						if kc != nil && hasXid {
+							nWrite++
+							r.Fn(f)
+							r.Sites++
+							writeKeys[strings.ToLower(constant.StringVal(kc.Val()))] = true
+							nm := callee.Name()
+							appendLike := strings.HasPrefix(nm, "Append") || strings.HasPrefix(nm, "Add")
+							r.Check(!appendLike && (strings.HasPrefix(nm, "Set") || nm == "Pairs" || nm == "New"), "C07.rpc", core.ShortKey(f.Obj)+" : the xid replaces whatever the outgoing metadata carried under "+kc.Name(), w.Pos(x.Pos()),
+								"set semantics", "the xid is added with "+core.ShortKey(callee)+", which keeps values already present under the key: metadata forwarded from an incoming call then carries [old xid, current xid] and the callee, which reads the first value, joins the wrong transaction (or a transaction the scope had suspended)")
+						}
+					}
 					if isMetaWrite(callee) && len(x.Args) == 2 {
 						c := keyConst(info, x.Args[0])
 						o := origin(f, x.Args[1], 4)
@@ -498,6 +520,10 @@ func c07RPC(r *core.Run) {
 		}
 		if nRead == 0 {
 			r.Bad("C07.rpc", pkgRel+" : callee side installs the xid", "", "no tm.SetXID call found in the integration")
+		}
+		// gin ships a server middleware only (confirmed by reading): no caller side to check there
+		if nWrite == 0 && pkgRel != "pkg/integration/gin" {
+			r.Bad("C07.rpc", pkgRel+" : caller side writes the xid into the transport metadata", "", "no write of tm.GetXID(ctx) under an xid key constant found in the integration: the xid does not travel")
 		}
 		if nWrite > 0 {
 			common := false
